@@ -8,6 +8,7 @@ import Lomond.Model.Frame
 import Lomond.Model.Http
 import Lomond.Model.Core
 import Lomond.Model.Persist
+import Lomond.Model.Inflate
 import Lomond.Model.Connect
 import Lomond.Model.Handshake
 import Lomond.Model.Proxy
@@ -146,7 +147,8 @@ def runCore (line : String) : String :=
         request := hexD (kv ct "req" "")
         challenge := (hexD (kv ct "chal" ""))
         writeFails := fun k => wfl.contains k
-        maskKey := testKey }
+        maskKey := testKey
+        inflate := Inflate.inflateAll }
     let env := (envS.splitOn " ").filterMap parseEnvTok
     let table := parseReactions (reactS.splitOn " ")
     let react : React := fun hist =>
@@ -390,6 +392,32 @@ def runConnect (arg : String) : String :=
     | .close i => "close" ++ toString i
   rs ++ " " ++ ",".intercalate (l.map showCall)
 
+/-- C06: `inflate <wbits> <hex>`: the bit-level inflater on a whole compressed history -/
+def runInflate (args : List String) : String :=
+  match args with
+  | [w, hx] =>
+    match Inflate.inflateAll (natOf w) (hexD hx) with
+    | none => "error"
+    | some out => "ok " ++ hexOfBytes out
+  | [w] =>
+    match Inflate.inflateAll (natOf w) [] with
+    | none => "error"
+    | some out => "ok " ++ hexOfBytes out
+  | _ => "bad-op"
+
+/-- C06: `deflateopts <cp.cp.cp…>`: one element of Sec-WebSocket-Extensions (code points) through
+    `parse_extension` + `Deflate.from_options` -/
+def runDeflateOpts (args : List String) : String :=
+  let ext : Http.Str := match args with
+    | [a] => if a = "" then [] else (a.splitOn ".").map natOf
+    | _ => []
+  let (tok, opts) := Http.parseExtension ext
+  "tok=" ++ showStr tok ++ " " ++
+    (match Http.deflateFromOptions opts with
+     | .error m => "error " ++ showStr m
+     | .ok d => "ok " ++ toString d.decompressWbits ++ " " ++ toString d.compressWbits ++ " " ++
+                b2s d.resetDecompress ++ " " ++ b2s d.resetCompress)
+
 def handle (line : String) : String :=
   if line.startsWith "core " then runCore (line.drop 5).toString
   else if line.startsWith "persist " then runPersist (line.drop 8).toString
@@ -399,6 +427,8 @@ def handle (line : String) : String :=
   else
     match line.splitOn " " with
     | "utf8" :: args => runUtf8 args
+    | "deflateopts" :: args => runDeflateOpts args
+    | "inflate" :: args => runInflate args
     | "frame" :: args => runFrame args
     | "http" :: args => runHttp args
     | _ => "bad-op"
